@@ -272,11 +272,14 @@ pub struct SsParams {
 
 macro_rules! ss_impl {
     ($name:ident, $i:ty) => {
-        pub struct $name(pub SetSketcher<$i, u64, FnvHasher>, pub SsParams);
+        ss_impl!($name, $i, FnvHasher);
+    };
+    ($name:ident, $i:ty, $h:ty) => {
+        pub struct $name(pub SetSketcher<$i, u64, $h>, pub SsParams);
         impl $name {
             pub fn new(p: SsParams) -> Self {
                 let params = SetSketchParams::new(p.b, p.m, p.a, p.q);
-                $name(SetSketcher::new(params, BuildHasherDefault::<FnvHasher>::default()), p)
+                $name(SetSketcher::new(params, BuildHasherDefault::<$h>::default()), p)
             }
         }
         impl Sk for $name {
@@ -347,6 +350,7 @@ macro_rules! ss_impl {
 ss_impl!(SsU16, u16);
 ss_impl!(SsU32, u32);
 ss_impl!(SsI32, i32); // a signed register type (the trait bounds allow it)
+ss_impl!(SsU16No, u16, NoHash0); // behind the crate's identity hasher (identifiers 0, 2^64-1, ... are hash values)
 
 /// the sketcher built by `Default` (hard-wired m = 4096 and the default parameters)
 pub fn ss_default_u16() -> SsU16 {
@@ -721,6 +725,7 @@ pub fn make(c: &Cfg) -> Box<dyn Sk> {
         "ss_u16" => Box::new(SsU16::new(c.ss.unwrap())),
         "ss_u32" => Box::new(SsU32::new(c.ss.unwrap())),
         "ss_i32" => Box::new(SsI32::new(c.ss.unwrap())),
+        "ss_u16_no" => Box::new(SsU16No::new(c.ss.unwrap())),
         "ss_def_u16" => Box::new(ss_default_u16()),
         "ss_def_u32" => Box::new(ss_default_u32()),
         "pmh2" => Box::new(Pmh2::new(m)),
